@@ -1,19 +1,22 @@
 (** Case runner for the verification skeleton (C20). *)
 From Coq Require Import ZArith List String Bool.
-From ACV Require Import Model.Res Model.Skeleton Exec.Show.
+From ACV Require Import Model.Res Model.Skeleton Model.SkelCreate Exec.Show.
 Import ListNotations.
 Open Scope string_scope.
 
 Inductive case : Type :=
-| KVer (su : suite) (ss : list sstmt) (P : spres).
+| KVer (su : suite) (ss : list sstmt) (P : spres)
+| KCre (creds : list (nat * cred)) (ss : list cstmt).
 
 Definition St := Build_sstmt.
 Definition Pr := Build_sproof.
 Definition Ps := Build_spres.
+Definition Cs := Build_cstmt.
 
 Definition run_case (k : case) : string :=
   match k with
   | KVer su ss P => show_res (fun _ => "") (verify su all_pass ss P)
+  | KCre creds ss => show_res (fun _ => "") (create creds ss all_pass_c)
   end.
 
 Definition run_all (l : list case) : string := unlines (map run_case l).
